@@ -65,7 +65,10 @@ for prop in props:
             if ref.get(i) != m.get(i) and i in ref and i in m:
                 div.append({"process": k, "gomaxprocs": [1, 4, 16][k % 3], "index": int(i), "ref": ref.get(i), "got": m.get(i)})
     nviol = sum(1 for l in (ref or {}).values() if 'sig=""' not in l)
-    res_all["properties"][prop] = {"indices_compared": len(ref or {}), "processes": len(outs), "divergent_lines": len(div),
+    by_g = {}
+    for d in div:
+        by_g[str(d["gomaxprocs"])] = by_g.get(str(d["gomaxprocs"]), 0) + 1
+    res_all["properties"][prop] = {"indices_compared": len(ref or {}), "processes": len(outs), "divergent_lines": len(div), "divergent_lines_by_gomaxprocs": by_g,
                                    "divergences": div[:10], "incomplete_processes": short, "runs_with_a_signature": nviol,
                                    "wall_s": round(time.time() - t0, 1)}
     print("%s: %d indices x %d processes, divergent lines: %d, incomplete: %d (%.0fs)" % (prop, len(ref or {}), len(outs), len(div), len(short), time.time() - t0))
